@@ -178,6 +178,17 @@ def bytes_method(engine, s: SV, name, args, kwargs, node):
         return SV(z3.PrefixOf(lift(args[0], TBytes).t, s.t), TBool)
     if name == "endswith":
         return SV(z3.SuffixOf(lift(args[0], TBytes).t, s.t), TBool)
+    if name == "isascii" and not args:
+        # every byte is below 0x80 (an opaque predicate with exactly that meaning, instantiated for the empty string)
+        f = ufn("bytes_isascii", s.t.sort(), z3.BoolSort())
+        i = z3.Const(f"i!asc{engine.fresh_id()}", z3.IntSort())
+        elem = s[SV(i, TInt)]
+        try:
+            below = z3.ULT(elem.t, z3.BitVecVal(128, elem.t.size()))
+        except Exception:  # noqa: BLE001  (bytes modelled as integers)
+            below = elem.t < 128
+        engine.st.pc.append(f(s.t) == z3.ForAll([i], z3.Implies(z3.And(i >= 0, i < z3.Length(s.t)), below)))
+        return SV(f(s.t), TBool)
     raise Unsupported(f"bytes.{name}")
 
 
